@@ -150,9 +150,10 @@ class FileProxy(object):
 
 
 class Interposer(object):
-    def __init__(self, root, faults=(), crash=None, pipe=None):
+    def __init__(self, root, faults=(), crash=None, pipe=None, fault_errno=errno.EIO):
         self.root = os.path.realpath(root)
         self.faults = set(faults)
+        self.fault_errno = fault_errno
         self.crash = tuple(crash) if crash else None
         self.pipe = pipe
         self.log = []
@@ -212,7 +213,7 @@ class Interposer(object):
                         thunk()
                     except Exception:
                         pass
-                err = OSError(errno.EIO, 'injected fault at event %d (%s)' % (k, op))
+                err = OSError(self.fault_errno, 'injected fault at event %d (%s)' % (k, op))
                 err.verif_event = k
                 raise err
             try:
@@ -462,7 +463,7 @@ def crash_run(cfg, crash=None, root=None):
         shutil.rmtree(sub, ignore_errors=True)
 
 
-def fault_run(cfg, faults=(), root=None, retry=False):
+def fault_run(cfg, faults=(), root=None, retry=False, fault_errno=errno.EIO):
     """run one save in this process with OSError injected at the events whose indices are in `faults`,
     under cfg['umask']. Returns dict(exc, log, pre_dest, pre_part, dest, part, listing[, retry_exc,
     retry_dest, retry_part]); `retry` may be a predicate on the result; the directory is removed."""
@@ -472,7 +473,7 @@ def fault_run(cfg, faults=(), root=None, retry=False):
         sub = os.path.realpath(sub)
         dest, part = setup_dir(sub, cfg)
         res = dict(pre_dest=observe(dest), pre_part=observe(part))
-        I = Interposer(sub, faults=faults)
+        I = Interposer(sub, faults=faults, fault_errno=fault_errno)
         I.patch()
         try:
             e = do_save(I, dest, cfg)
